@@ -1067,6 +1067,7 @@ static int ec_at(char *loc, char *cmd, char *arg, char *txt)
 {
 	int beg, end;
 	int lnmode;
+	int ret;
 	char *buf = reg_get(REG(arg), &lnmode);
 	if (!buf || ex_region(loc, &beg, &end))
 		return 1;
@@ -1074,7 +1075,6 @@ static int ec_at(char *loc, char *cmd, char *arg, char *txt)
 	if (cmd[0] == 'r' && cmd[1] == 'a') {
 		struct sbuf *r = sbuf_make();
 		char *s = buf;
-		int ret;
 		while (*s) {
 			if ((unsigned char) *s == '' && s[1]) {
 				char *reg = reg_get((unsigned char) *++s, NULL);
@@ -1090,7 +1090,10 @@ static int ec_at(char *loc, char *cmd, char *arg, char *txt)
 		sbuf_free(r);
 		return ret;
 	}
-	return ex_command(buf);
+	buf = uc_dup(buf);	/* the commands may change the register */
+	ret = ex_command(buf);
+	free(buf);
+	return ret;
 }
 
 static int ec_source(char *loc, char *cmd, char *arg, char *txt)
